@@ -74,6 +74,22 @@ from fortls.version import __version__
 TYPE_DEF_REGEX = re.compile(r"[ ]*(TYPE|CLASS)[ ]*\([a-z0-9_ ]*$", re.I)
 
 
+def interface_members(obj) -> list:
+    """The specific procedures of an object that reports the INTERFACE type.
+
+    A procedure pointer declared with the name of a generic interface,
+    `procedure(gen), pointer :: pp`, takes its type from the interface it is
+    linked to, but it is not an `Interface` itself: its members are those of
+    the linked interface"""
+    seen = []
+    while not hasattr(obj, "mems"):
+        seen.append(obj)
+        obj = getattr(obj, "link_obj", None)
+        if obj is None or any(obj is s for s in seen):
+            return []
+    return obj.mems
+
+
 class LangServer:
     def __init__(self, conn, settings: dict):
         self.conn: JSONRPC2Connection = conn
@@ -717,7 +733,7 @@ class LangServer:
                 tmp_list = []
                 if name_replace is None:
                     name_replace = candidate.name
-                for member in candidate.mems:
+                for member in interface_members(candidate):
                     tmp_text, _ = member.get_snippet(name_replace)
                     if tmp_list.count(tmp_text) > 0:
                         continue
@@ -1171,7 +1187,7 @@ class LangServer:
                 )
             )
         elif var_type == INTERFACE_TYPE_ID:
-            for member in var_obj.mems:
+            for member in interface_members(var_obj):
                 hover_str, docs = member.get_hover(long=True)
                 if hover_str is not None:
                     hover_array.append(create_hover(hover_str, docs))
